@@ -313,11 +313,17 @@ def run_shard(shard, tier, seed):
                     for clause, detail in probs:
                         rep.violation(f"read/{packet_class(proj, text, conn)}/{cls}/{clause}/{devs}", f"{cfg} image {image}: read({text!r}) {detail} (controller choices {ctx.choices!r})",
                                       {"cfg": list(cfg), "image": image, "requests": [text], "choices": list(ctx.choices)})
-                explore(scenario, bound, on_exec)
+                # a transfer of many dozens of fragments: the fragment-length choices of a *short* transfer cover the same code; default answers only
+                pr = Q.parse_request(proj, text) if want[0] == "ok" else None
+                big_transfer = pr is not None and pr.kind not in ("bit", "boolmember") and pr.count * Q.type_size(pr.typ) > 16000
+                explore(scenario, 0 if big_transfer and tier != "thorough" else (1 if big_transfer else bound), on_exec)
             ctl.ctx = None
         else:
             # one request per class: all ordered pairs (duplicates included), then the whole alphabet in one call
             byclass = {}
+            if tier != "thorough":
+                # the 68 KB structure is read on its own (shard `single`); in lists it would only multiply fragment traffic
+                reqs = [(x, c) for x, c in reqs if not x.startswith("huge1")]
             for text, cls in reqs:
                 if Q.read_expect(proj, text)[0] == "ok":
                     byclass.setdefault((cls, packet_class(proj, text, conn)), text)
